@@ -12,6 +12,7 @@ Decided:
 Not decided: SHA-1 values (C12 decides constants and padding structure only); URL/version content.
 """
 from .. import fmt
+from ..prov import derive, index_of
 from ..sym import Explorer, N, is_const, show, walk
 from ..wrules import w1, w2, w3
 
@@ -246,6 +247,32 @@ def run(ctx):
                     e = N(e)
                     if isinstance(e, tuple) and e[0] == "bin" and e[1] == "Add" and "length" in field_names(e) and ("v", l) in (e[2], e[3]):
                         acc_ok = True
+        if not acc_ok:
+            # the same accumulation spelled with iterator adaptors: a closure of to_string adds `.length` into the
+            # variable it captured by mutable reference (for_each), or yields `.length` to sum()
+            for cl_ in prog.closures_of(tb.name):
+                cix_ = index_of(cl_)
+                for _b2, _s2, st_ in cl_.stmts():
+                    if st_["k"] != "assign":
+                        continue
+                    rv_ = st_["rv"]
+                    lhs_ = st_["lhs"]
+                    through_capture = lhs_["l"] == 1 or (lhs_["p"] and lhs_["p"][0] == "*" and (cl_.locals[lhs_["l"]]["ty"].startswith("&mut") or lhs_["l"] == 1))
+                    src_ = rv_.get("a")
+                    if rv_["k"] == "use" and isinstance(src_, dict):
+                        q_ = src_.get("m") or src_.get("c")
+                        if q_ and len(q_["p"]) == 1 and isinstance(q_["p"][0], dict) and q_["p"][0].get("f") == 0:
+                            d0_ = cix_.single_def(q_["l"])
+                            if d0_ and d0_[0] == "assign" and d0_[3]["rv"]["k"] == "bin" and d0_[3]["rv"]["op"].startswith("Add"):
+                                rv_ = d0_[3]["rv"]
+                    if rv_["k"] == "bin" and rv_["op"].startswith("Add") and through_capture:
+                        da_, db_ = derive(cix_, rv_["a"]), derive(cix_, rv_["b"])
+                        if "length" in (da_.names | db_.names) and 1 in (da_.params | db_.params):
+                            acc_ok = True
+                # map(|p| p.length) feeding sum()
+                d0_ = derive(cix_, {"c": {"l": 0, "p": [], "ty": ""}})
+                if "length" in d0_.names and any((t_.get("res") or "").endswith("::sum") for _b3, t_ in tb.calls()):
+                    acc_ok = True
         ctx.ob("LABEL", "total-is-sum-of-lengths", acc_ok, f"the number written after the label is `{arg}`, which must accumulate patches[..].length", tb.file, t.line)
     # parse input must not still carry the label
     parses = []
